@@ -60,6 +60,7 @@ def replay(job):
                                                         commit=True, tag=True, push=False, extra={"tag_scope": ([s["scope"] for s in hist if s["act"] == "update"] or ["default"])[0]}))
         proj.write("a.txt", "intro\nver=%s\npep=%s\n" % (prj["v0"], pep0))
         git(root, "add", "-A"); git(root, "commit", "-q", "-m", "init")
+        proj.write("untracked.tmp", "never added: must not appear in any bump commit\n")
         n_unrel = 0
         for si, st in enumerate(hist):
             steps += 1
